@@ -24,9 +24,9 @@ Notation bitem := (item N batch) (only parsing).
 Notation btask := (task N batch) (only parsing).
 
 Definition bstep (H thr : Z) : config -> bst -> blabel -> option bst :=
-  step N.eqb bytes_eqb column_signature batch_rows (bflush H thr).
+  step N.eqb bytes_eqb buffer_schema_key batch_rows (bflush H thr).
 Definition brun (H thr : Z) : config -> bst -> list blabel -> option bst :=
-  run N.eqb bytes_eqb column_signature batch_rows (bflush H thr).
+  run N.eqb bytes_eqb buffer_schema_key batch_rows (bflush H thr).
 Definition binit : bst := init.
 
 (* ------------------------------------------------------------------------------------ *)
@@ -159,7 +159,7 @@ Section Sched.
 
   Definition sched_write (s : bst) (k : N) (b : batch) : option bst :=
     let s1 := match lookup N.eqb k (buffers s) with
-              | Some (sg, _) => if bytes_eqb sg (column_signature b) then Some s
+              | Some (sg, _) => if bytes_eqb sg (buffer_schema_key b) then Some s
                                 else opt_bind (stp s (LSchemaFlush k)) (settle 4)
               | None => Some s
               end in
@@ -171,6 +171,16 @@ Section Sched.
     | k :: r => opt_bind (stp s (mk k)) (fun s1 => opt_bind (settle 4 s1) (sched_extract_all mk r))
     end.
 
+  (* Close drains what the workers left in the queue (2ed39c6) *)
+  Fixpoint drain_all (n : nat) (s : bst) : option bst :=
+    match n with
+    | O => Some s
+    | S m => match queue s with
+             | [] => Some s
+             | _ :: _ => opt_bind (stp s LCloseDrain) (fun s1 => opt_bind (settle 2 s1) (drain_all m))
+             end
+    end.
+
   Definition sched_op (s : bst) (o : op) : option bst :=
     match o with
     | OWrite k b => sched_write s k b
@@ -178,8 +188,9 @@ Section Sched.
     | OClose =>
         opt_bind (stp s LCloseBegin) (fun s1 =>
         opt_bind (stp s1 LCloseWait) (fun s2 =>
-        opt_bind (sched_extract_all (fun k => LCloseExtract k) (map fst (buffers s2)) s2) (fun s3 =>
-        stp s3 LCloseEnd)))
+        opt_bind (drain_all (length (queue s2)) s2) (fun s2' =>
+        opt_bind (sched_extract_all (fun k => LCloseExtract k) (map fst (buffers s2')) s2') (fun s3 =>
+        stp s3 LCloseEnd))))
     end.
 
   Fixpoint sched (s : bst) (ops : list op) : option bst :=
@@ -194,9 +205,10 @@ Definition stored_kfiles (s : bst) : list kfile :=
 
 (* the Close witness: max_size = 1 row, one worker blocked inside storage.Write on the first
    batch, the next n batches queued; Close; the worker is released.  After cancel() the
-   worker's select may still receive from the queue, so any prefix of the queue may be
-   flushed before the worker exits: the model's outcomes are exactly the prefixes. *)
-Definition close_witness_labels (k : N) (bs : list batch) (drained : nat) : list blabel :=
+   worker's select may still receive from the queue, so any prefix of the queue ([drained]) may be
+   flushed by the worker before it exits; Close then drains the rest itself ([fix] = true, the
+   code since 2ed39c6) or abandons it ([fix] = false, the Close before the fix). *)
+Definition close_witness_labels (fix_ : bool) (k : N) (bs : list batch) (drained : nat) : list blabel :=
   match bs with
   | [] => []
   | b0 :: rest =>
@@ -204,7 +216,9 @@ Definition close_witness_labels (k : N) (bs : list batch) (drained : nat) : list
       ++ flat_map (fun b => [LWrite k b true; LEnqueue 1]) rest
       ++ [LCloseBegin; LDone 0 OOk]
       ++ flat_map (fun _ => [LDequeue; LDone 0 OOk]) (seq 0 drained)
-      ++ [LCloseWait; LCloseEnd]
+      ++ [LCloseWait]
+      ++ (if fix_ then flat_map (fun _ => [LCloseDrain; LDone 0 OOk]) (seq 0 (length rest - drained)) else [])
+      ++ [LCloseEnd]
   end.
 
 (* ------------------------------------------------------------------------------------ *)
@@ -218,11 +232,13 @@ Inductive ccase :=
 | CGroup (H : Z) (ts : list Z) (obs : list (Z * list N))
 | CPerm (thr : Z) (fn : N) (ts : list Z) (obs : option (list N))   (* fn: 0 permuteByTime, 1 permuteByTimeSort, 2 radixPermuteByTime *)
 | CSig (b : batch) (obs : list N)
+| CKey (b : batch) (obs : list N)
 | CMerge (bs : list batch) (obs : mobs)
 | CFlush (H thr : Z) (b : batch) (obs : option (list (Z * batch)))
 | CHist (H thr : Z) (cfg : config) (ops : list op) (obs : list kfile)
 | CConc (H : Z) (writes : list (N * batch)) (obs : list kfile)
-| CCloseW (H thr : Z) (qcap : nat) (k : N) (bs : list batch) (obs : list kfile).
+| CCloseW (H thr : Z) (qcap : nat) (k : N) (bs : list batch) (obs : list kfile)
+| CLabels (H thr : Z) (cfg : config) (ls : list blabel) (obs : list kfile).   (* a forced schedule, label by label *)
 
 Definition writes_of_ops (ops : list op) : list (N * batch) :=
   flat_map (fun o => match o with OWrite k b => [(k, b)] | _ => [] end) ops.
@@ -315,16 +331,25 @@ Definition hist_oracle (H : Z) (ops : list op) (obs : list kfile) : bool :=
   if ends_with_close ops then conservation_oracle H (writes_of_ops ops) obs
   else forallb (fun f => file_oracle H (snd f)) obs.
 
-Definition closew_cfg (qcap : nat) : config := {| max_size := 1; queue_cap := qcap; wal_on := false; fix_drain := false |}.
+Definition closew_cfg (qcap : nat) : config := {| max_size := 1; queue_cap := qcap; wal_on := false; fix_drain := true |}.
 
 (* the observed files must be one of the model's outcomes (some prefix of the queue drained) *)
 Definition closew_agrees (H thr : Z) (qcap : nat) (k : N) (bs : list batch) (obs : list kfile) : bool :=
-  existsb (fun d => match brun H thr (closew_cfg qcap) binit (close_witness_labels k bs d) with
+  existsb (fun d => match brun H thr (closew_cfg qcap) binit (close_witness_labels true k bs d) with
                     | Some s => phase_eqb (phase s) PClosed && kfiles_meq (stored_kfiles s) obs
                     | None => false end) (seq 0 (length bs)).
 
 Definition closew_oracle (H : Z) (k : N) (bs : list batch) (obs : list kfile) : bool :=
   conservation_oracle H (map (fun b => (k, b)) bs) obs.
+
+Definition writes_of_labels (ls : list blabel) : list (N * batch) :=
+  flat_map (fun l => match l with LWrite k b _ => [(k, b)] | _ => [] end) ls.
+
+Definition labels_agree (H thr : Z) (cfg : config) (ls : list blabel) (obs : list kfile) : bool :=
+  match brun H thr cfg binit ls with
+  | Some s => kfiles_meq (stored_kfiles s) obs
+  | None => false
+  end.
 
 Definition case_agrees (c : ccase) : bool :=
   match c with
@@ -332,11 +357,13 @@ Definition case_agrees (c : ccase) : bool :=
   | CGroup H ts obs => group_agrees H ts obs
   | CPerm thr fn ts obs => perm_agrees thr fn ts obs
   | CSig b obs => list_eqb N.eqb (column_signature b) obs
+  | CKey b obs => list_eqb N.eqb (buffer_schema_key b) obs
   | CMerge bs obs => merge_agrees bs obs
   | CFlush H thr b obs => flush_agrees H thr b obs
   | CHist H thr cfg ops obs => hist_agrees H thr cfg ops obs
   | CConc H writes obs => conservation_oracle H writes obs      (* the model's prediction IS the conservation law *)
   | CCloseW H thr qcap k bs obs => closew_agrees H thr qcap k bs obs
+  | CLabels H thr cfg ls obs => labels_agree H thr cfg ls obs
   end.
 
 Definition case_oracle (c : ccase) : bool :=
@@ -345,9 +372,11 @@ Definition case_oracle (c : ccase) : bool :=
   | CGroup H ts obs => group_oracle H ts obs
   | CPerm _ _ ts obs => perm_oracle ts obs
   | CSig _ _ => true
+  | CKey _ _ => true
   | CMerge bs obs => merge_oracle bs obs
   | CFlush H _ b obs => flush_oracle H b obs
   | CHist H _ _ ops obs => hist_oracle H ops obs
   | CConc H writes obs => conservation_oracle H writes obs
   | CCloseW H _ _ k bs obs => closew_oracle H k bs obs
+  | CLabels H _ _ ls obs => conservation_oracle H (writes_of_labels ls) obs
   end.
